@@ -188,6 +188,32 @@ static bool prog_spinlock() {
   return plain == 6 && std::atomic_load(&cnt) == 6 && ptr.load() == cells + 2;
 }
 
+// 13. futures: promise/future hand-shake at thread start, async with results, shared_future, packaged_task, timed wait
+static int twice(int x) { return 2 * x; }
+static bool prog_futures() {
+  std::promise<void> up;
+  std::promise<int> val;
+  std::future<int> fv = val.get_future();
+  std::thread t([&] { up.set_value(); val.set_value(20); });
+  up.get_future().wait();
+  std::future<int> a = std::async(std::launch::async, twice, 4);
+  std::future<int> b = std::async(twice, 5);
+  std::future<int> c = std::async(std::launch::deferred, twice, 6);
+  std::shared_future<int> sf = std::async(std::launch::async, [] { return 1; }).share();
+  std::shared_future<int> sf2 = sf;
+  std::packaged_task<int(int)> pt(twice);
+  std::future<int> pf = pt.get_future();
+  std::thread t2(std::move(pt), 7);
+  while (fv.wait_for(std::chrono::milliseconds(1)) != std::future_status::ready) {}
+  int sum = fv.get() + a.get() + b.get() + c.get() + sf.get() + sf2.get() + pf.get();
+  t.join(); t2.join();
+  bool threw = false;
+  std::future<int> e = std::async(std::launch::async, []() -> int { throw std::runtime_error("x"); });
+  try { e.get(); } catch (const std::runtime_error &) { threw = true; }
+  { std::future<void> dropped = std::async(std::launch::async, [] {}); }   // destructor waits and joins
+  return sum == 20 + 8 + 10 + 12 + 1 + 1 + 14 && threw;
+}
+
 struct Prog { const char *name; bool (*fn)(); bool expect_always_ok; bool needs_spurious; };
 static const Prog PROGS[] = {
     {"correct-handover", prog_correct, true, false},
@@ -202,6 +228,7 @@ static const Prog PROGS[] = {
     {"polling an atomic (with/without yield): fairness", prog_spin, true, false},
     {"contended function-local static", prog_magic_static, true, false},
     {"atomic_flag spin lock, atomic typedefs/free functions", prog_spinlock, true, false},
+    {"promise/future, async, shared_future, packaged_task", prog_futures, true, false},
 };
 
 static void quiet_fail(int, const char *) { _exit(42); }
